@@ -73,7 +73,11 @@ fn eval_gcd<T: NT>(c: &(Pat, Pat), obs: &mut Obs) -> Result<(), String> {
     obs.label_if(za.is_zero() || zb.is_zero(), "zero operand");
     let gfits = fits::<T>(&g);
     if gfits {
-        ck!("Integer::gcd", oc(|| Integer::gcd(&a, &b)), ret::<T>(&g));
+        // gcd is an iteration too: time-boxed like the roots (an endless loop is undecided, the other cases still run)
+        match runner::outcome_timed(30, move || st(&Integer::gcd(&a, &b))) {
+            Some(got) => ck!("Integer::gcd", got, ret::<T>(&g)),
+            None => return Ok(()),
+        }
         let l = if g.is_zero() { Z::zero() } else { za.mul(&zb).abs().divrem_trunc(&g).0 };
         if fits::<T>(&l) && !(T::SIGNED && (za == zmin::<T>() || zb == zmin::<T>())) {
             obs.label("lcm representable");
